@@ -17,7 +17,7 @@ ASSUMPTIONS = ['HMAC-SHA2 is a parameter of the model; its values come from Pyth
                'serde_json parsing is a parameter; its values come from Python json on the same bytes (no duplicate keys, no exponents, |numbers| < 2^53 with <= 3 fractional digits so that f64 comparison is exact)',
                'an OPTIONS request is answered 200 by the fang without running the inside (preflight bypass): outside the property, compared with the model only']
 DIG = {'HS256': hashlib.sha256, 'HS384': hashlib.sha384, 'HS512': hashlib.sha512}
-SECRETS = ['s3cret', 'k', 'another-secret-key', 'ü-key', 'x' * 70]
+SECRETS = ['s3cret', 'k', 'another-secret-key', 'ü-key', 'x' * 70, ' s3cret', 's3cret\n', '\ts3cret \r\n', ' ', 'S3CRET']          # a secret is a byte string: surrounding whitespace and letter case are part of it
 URL = 'ABCDEFGHIJKLMNOPQRSTUVWXYZabcdefghijklmnopqrstuvwxyz0123456789-_'
 
 
@@ -108,7 +108,8 @@ def mutations(rng, alg, secret, now):
         return good[:i] + rng.choice(URL + '.=+/').encode() + good[i + 1:], 'char'
     if r < 0.50:
         other = rng.choice([a for a in DIG if a != alg])
-        return rng.choice([token(alg, secret.encode(), hdr, cj(pl), sign_secret=b'wrong'), token(alg, secret.encode(), hdr, cj(pl), sign_alg=other),
+        near = rng.choice([secret.strip(), ' ' + secret, secret + '\n', secret.upper(), secret.lower(), secret[:-1], secret + secret[-1:]]).encode()          # a key one step away from the configured one
+        return rng.choice([token(alg, secret.encode(), hdr, cj(pl), sign_secret=b'wrong'), token(alg, secret.encode(), hdr, cj(pl), sign_secret=near), token(alg, secret.encode(), hdr, cj(pl), sign_secret=near), token(alg, secret.encode(), hdr, cj(pl), sign_alg=other),
                            token(alg, secret.encode(), {'typ': 'JWT', 'alg': other}, cj(pl), sign_alg=other), token(alg, secret.encode(), {'typ': 'JWT', 'alg': other}, cj(pl))]), 'resign'
     if r < 0.60:
         h2 = rng.choice([{'alg': alg}, {'typ': 'jwt', 'alg': alg}, {'typ': 'JWS', 'alg': alg}, {'typ': 7, 'alg': alg}, {'typ': 'JWT'}, {'typ': 'JWT', 'alg': 'none'}, {'typ': 'JWT', 'alg': alg.lower()},
